@@ -23,6 +23,7 @@ def main():
     c.correspond("classify")
     c.correspond("auth")
     c.correspond("frame")
+    c.correspond("dkgstep")
     return c.finish(
         rule="Also run here: auth (mutated handshakes through authenticateConnection / handleConn), frame (broken frames through readMsg, live peers down / stalled / garbling), silent-mode dispatcher states (idle, signing) and fuzzSilentQuota (a peer exceeding the buffer's topic and message quotas; the node must go on serving). fuzz: for every entry point (Scheme.HandleMessage in states idle/synchronising/protocol running/finished; disc.Member.HandleMessage idle/synchronising/finished incl. response bursts; "
              "ClassifyMsg/OnMsg of mpc/bls and mpc/ps initialised/finished; DKG runs with a participant sending mutated messages; TPS.Sign, ps.Verifier.Init/Verify, bls.Verifier.Init/Verify, SetShareData) "
